@@ -210,8 +210,65 @@ def q_oracle(obs):
     return bad
 
 
+def observe_q_vec(ms, pss, E, qs):
+    """B dyadic maps in ONE vectorised CustomTransferMap, B particle sets in ONE vectorised ParticleBeam (and the ParameterBeam of its
+    moments): list of per-entry observations in the format of observe_q, or raises ShapeMismatch"""
+    import cheetah
+    B, n = len(ms), len(pss[0])
+    el = cheetah.CustomTransferMap(torch.tensor(ms, dtype=DT), length=torch.full((B,), 0.5, dtype=DT), name="ctm")
+    pb = cheetah.ParticleBeam(torch.tensor(pss, dtype=DT), torch.tensor(float(E), dtype=DT),
+                              particle_charges=torch.tensor(qs, dtype=DT), survival_probabilities=torch.ones(B, n, dtype=DT), dtype=DT)
+    mu_in, cov_in = moments_impl(pb)
+    qb = cheetah.ParameterBeam(mu_in, cov_in, pb.energy, total_charge=pb.total_charge, dtype=DT)
+    op, oq = el.track(pb), el.track(qb)
+    shapes = {"ParameterBeam.mu": list(oq._mu.shape), "ParameterBeam.cov": list(oq._cov.shape), "ParticleBeam.particles": list(op.particles.shape)}
+    if tuple(oq._mu.shape) != (B, 7) or tuple(oq._cov.shape) != (B, 7, 7) or tuple(op.particles.shape) != (B, n, 7):
+        raise ShapeMismatch(json.dumps(shapes))
+    mu_p, cov_p = moments_impl(op)
+    out = []
+    for b in range(B):
+        out.append({"mu_in": mu_in[b].tolist(), "cov_in": cov_in[b].tolist(), "mu_part": mu_p[b].tolist(), "cov_part": cov_p[b].tolist(),
+                    "mu_param": oq._mu[b].tolist(), "cov_param": oq._cov[b].tolist(),
+                    "E": [float(op.energy.expand(B)[b]), float(oq.energy.expand(B)[b])],
+                    "Q": [float(op.total_charge.expand(B)[b]), float(oq.total_charge.expand(B)[b])], "part_rows": op.particles[b].tolist()})
+    return out
+
+
+class ShapeMismatch(Exception):
+    pass
+
+
 def exact_qmaps(run, n_cases):
     cases, terms, impl_fail = [], [], []
+    # vectorised: B dyadic maps x B particle sets through one CustomTransferMap / one beam; each entry is a case of the same exact checker
+    for _ in range(max(3, n_cases // 16)):
+        B, n = run.rng.choice([2, 3]), run.rng.choice([3, 4, 5])
+        pss = [[[float(Fraction(v, 2)) for v in p[:6]] + [1.0] for p in gen_int_particles(run.rng, n, amp=run.rng.choice([2, 5]))] for _ in range(B)]
+        ms = [gen_dyadic_map(run.rng) for _ in range(B)]
+        E = run.rng.choice([5e6, 1e8])
+        qs = [[run.rng.choice([0.0, 1.0, 2.0]) for _ in range(n)] for _ in range(B)]
+        run.count("qmap_vectorised_batches")
+        try:
+            obs_list = observe_q_vec(ms, pss, E, qs)
+        except ShapeMismatch as ex:
+            run.vec_q_fail = {"kind": "dyadic_map_vectorised", "maps": ms, "particles": pss, "E": E, "charges": qs, "shapes": json.loads(str(ex)),
+                              "differs": ["shape: mu must be (B, 7), cov (B, 7, 7), particles (B, n, 7)"]}
+            continue
+        for b, obs in enumerate(obs_list):
+            emu, ecov = exact_moments(obs["part_rows"])
+            if [Fraction(x) for x in obs["mu_part"]] != emu or [[Fraction(x) for x in r] for r in obs["cov_part"]] != ecov:
+                run.count("qmap_discarded_inexact")
+                continue
+            run.add_case(["qmap_vec", ms[b], pss[b], b], True)
+            run.count("qmap_vectorised_entries")
+            if q_oracle(obs):
+                impl_fail.append(len(cases))
+                if not hasattr(run, "vec_q_fail"):
+                    run.vec_q_fail = {"kind": "dyadic_map_vectorised", "maps": ms, "particles": pss, "E": E, "charges": qs, "entry": b,
+                                      "observed_entry": {k: v for k, v in obs.items() if k != "part_rows"}, "differs": q_oracle(obs)}
+            cases.append((ms[b], pss[b], E, qs[b], obs))
+            terms.append(f"mkq {q_m7(ms[b])} {coq_list([q_v7(p) for p in pss[b]])} {q_v7(obs['mu_in'])} {q_m7(obs['cov_in'])} "
+                         f"{q_v7(obs['mu_part'])} {q_m7(obs['cov_part'])} {q_v7(obs['mu_param'])} {q_m7(obs['cov_param'])}")
     for _ in range(n_cases):
         n = run.rng.choice([3, 4, 5, 6, 7, 8])
         k = run.rng.choice([0, 1, 3, 6])
@@ -518,6 +575,238 @@ def real_layer(run, n_per_class, n_seg):
     return bad
 
 
+# ---------------------------------------------------------------- vectorised beams / elements (round 6, C06-8)
+# The property is a statement about every entry of the vector dimensions: batch on the beam (B beams), on the element parameters,
+# on both (equal shapes (B,)x(B,), broadcastable shapes (A,1)x(B,)), on the reference energy; and an un-vectorised beam through a
+# Segment whose first element is a Cavity with a voltage scan (the cavity vectorises mean, covariance and energy for everything behind
+# it).  Oracle per entry: the outgoing ParameterBeam has mu of shape S+(7,), cov of shape S+(7,7) with S the broadcast of all batch
+# shapes, and entry [idx] of it has the moments of the tracked particles of entry [idx] (same comparison as the scalar layer),
+# energy and charge included.
+VEC_PARAMS = {"Drift": ["length"], "Quadrupole": ["length", "k1", "tilt", "misalignment"], "Dipole": ["length", "angle", "k1", "dipole_e1", "tilt"],
+              "RBend": ["length", "angle", "k1", "rbend_e2", "tilt"], "Solenoid": ["length", "k", "misalignment"],
+              "HorizontalCorrector": ["length", "angle"], "VerticalCorrector": ["length", "angle"], "Undulator": ["length"],
+              "Cavity": ["length"], "CustomTransferMap": ["predefined_transfer_map"]}
+NO_DISPERSION = ["Drift", "Quadrupole", "Solenoid", "HorizontalCorrector", "VerticalCorrector", "Marker", "Undulator"]
+
+
+def gen_vector_spec(rng, cls, B):
+    """(vector spec, [scalar spec of entry b]) : B scalar specs of one class; a random non-empty subset of its tensor parameters is vectorised"""
+    base = [real_spec(rng, cls) for _ in range(B)]
+    if cls == "Cavity":
+        for sp in base:
+            sp["kw"]["voltage"] = 0.0
+    keys = [k for k in VEC_PARAMS.get(cls, []) if k in base[0]["kw"]]
+    K = [k for k in keys if rng.random() < 0.6] or keys[:1]
+    vec = copy.deepcopy(base[0])
+    entries = []
+    for b in range(B):
+        e = copy.deepcopy(base[0])
+        for k in K:
+            e["kw"][k] = copy.deepcopy(base[b]["kw"][k])
+        entries.append(e)
+    for k in K:
+        vec["kw"][k] = [copy.deepcopy(base[b]["kw"][k]) for b in range(B)]
+    if cls == "CustomTransferMap" and K:
+        vec["kw"]["length"] = [base[0]["kw"]["length"]] * B
+    return vec, entries, K
+
+
+def gen_vector_case(rng, cls=None, segment=False):
+    mode = rng.choice(["beam", "element", "both", "both", "outer", "energy", "both_energy"])
+    B = rng.choice([2, 3])
+    A = rng.choice([2, 3]) if mode == "outer" else None
+    n = rng.choice([3, 4, 5, 6])
+    E = rng.choice(realgen.ENERGIES)
+    nb = {"beam": B, "element": 1, "both": B, "outer": A, "energy": 1, "both_energy": B}[mode]
+    beams = [gen_real_beam(rng, n=n, energy=E) for _ in range(nb)]
+    energies = None
+    if mode in ("energy", "both_energy"):
+        energies = [E * f for f in [1.0, 1.7, 0.6][:B]]
+    if segment:
+        Bc = B
+        volts = [rng.choice([2e6, 5e6, 9e6, 1.5e7]) for _ in range(Bc)]
+        cav = {"cls": "Cavity", "name": "cav", "kw": dict(length=rng.choice([0.5, 1.0]), voltage=volts, phase=rng.choice([0.0, 30.0, -20.0]),
+                                                         frequency=1.3e9)}
+        es = [cav]
+        for q in range(rng.randrange(1, 4)):
+            sp = real_spec(rng, rng.choice(NO_DISPERSION))
+            sp["name"] = f"e{q}"
+            es.append(sp)
+        spec = {"cls": "Segment", "name": "seg", "es": es}
+        mode = rng.choice(["element", "both"])      # un-vectorised beam (the scan vectorises it) or a batch of beams of the scan's shape
+        beams = beams[:1] if mode == "element" else [gen_real_beam(rng, n=n, energy=E) for _ in range(Bc)]
+        return {"kind": "vector", "mode": mode, "spec": spec, "beams": beams, "energies": None, "transverse_only": True, "vec_keys": ["voltage"]}
+    cls = cls or rng.choice(LINEAR_CLASSES)
+    if mode in ("beam", "energy") or cls not in VEC_PARAMS:
+        spec, K = real_spec(rng, cls), []
+        if cls == "Cavity":
+            spec["kw"]["voltage"] = 0.0
+        if mode in ("element", "both", "outer", "both_energy") and cls not in VEC_PARAMS:
+            mode = "beam"
+            beams = [gen_real_beam(rng, n=n, energy=E) for _ in range(B)]
+    else:
+        spec, _, K = gen_vector_spec(rng, cls, B)
+    return {"kind": "vector", "mode": mode, "spec": spec, "beams": beams, "energies": energies, "transverse_only": False, "vec_keys": K}
+
+
+def build_vector_beam(case):
+    """ParticleBeam whose batch shape is () (one beam), (B,) or (A, 1) (mode 'outer'); energies () / (B,)"""
+    import cheetah
+    bs = case["beams"]
+    P = torch.tensor([b["particles"] for b in bs], dtype=DT)
+    q = torch.tensor([b["charges"] for b in bs], dtype=DT)
+    w = torch.tensor([b["survival"] for b in bs], dtype=DT)
+    if len(bs) == 1:
+        P, q, w = P[0], q[0], w[0]
+    elif case["mode"] == "outer":
+        P, q, w = P.unsqueeze(1), q.unsqueeze(1), w.unsqueeze(1)
+    E = torch.tensor(case["energies"] if case["energies"] else bs[0]["energy"], dtype=DT)
+    return cheetah.ParticleBeam(P, E, particle_charges=q, survival_probabilities=w, dtype=DT)
+
+
+def _batch_shape_of_spec(spec):
+    shp = ()
+    for c in (spec["es"] if spec["cls"] == "Segment" else [spec]):
+        for k, v in c["kw"].items():
+            if k in realgen.TENSOR_KW and isinstance(v, list):
+                t = torch.tensor(v)
+                d = {"misalignment": 1, "predefined_transfer_map": 2, "pixel_size": 1}.get(k, 0)
+                shp = torch.broadcast_shapes(shp, tuple(t.shape[:t.dim() - d]))
+    return tuple(shp)
+
+
+def run_vector_case(case):
+    """-> (status, failures, info): failures = [{"entry": idx, "diffs": [...]}] or a shape failure"""
+    import itertools
+    import cheetah
+    el = realgen.build(case["spec"])
+    pb = build_vector_beam(case)
+    qb = as_parameter_beam(pb)
+    op, oq = el.track(pb), el.track(qb)
+    n = pb.particles.shape[-2]
+    S = tuple(torch.broadcast_shapes(tuple(pb.particles.shape[:-2]), tuple(pb.energy.shape), _batch_shape_of_spec(case["spec"])))
+    shapes = {"expected_batch_shape": list(S), "ParameterBeam.mu": list(oq._mu.shape), "ParameterBeam.cov": list(oq._cov.shape),
+              "ParticleBeam.particles": list(op.particles.shape), "energy": [list(oq.energy.shape), list(op.energy.shape)]}
+    fails = []
+
+    def fits(t, tail):
+        # broadcastable to S + tail without adding batch dimensions
+        sh = tuple(t.shape)
+        if len(sh) > len(S) + len(tail):
+            return False
+        try:
+            return tuple(torch.broadcast_shapes(sh, S + tail)) == S + tail
+        except RuntimeError:
+            return False
+    # a vectorised input makes the corresponding output vectorised: mean and covariance carry exactly the batch shape S
+    # (an element that hands the beam on untouched, or whose map does not depend on a vectorised energy, may leave mean / covariance
+    # un-vectorised: then they must still broadcast to S without a new dimension, and both beam types must agree on the batch shape)
+    if not (fits(oq._mu, (7,)) and fits(oq._cov, (7, 7))) or tuple(oq._mu.shape[:-1]) != tuple(oq._cov.shape[:-2]):
+        fails.append({"what": "shape of the outgoing ParameterBeam mean / covariance is not batch_shape + (7,) / (7, 7)", **shapes})
+    if not fits(op.particles, (n, 7)):
+        fails.append({"what": "shape of the outgoing ParticleBeam particles is not batch_shape + (n, 7)", **shapes})
+    if not fails and tuple(oq._mu.shape[:-1]) != tuple(op.particles.shape[:-2]):
+        fails.append({"what": "the tracked ParameterBeam and the tracked ParticleBeam carry different batch shapes", **shapes})
+    if not (fits(oq.energy, ()) and fits(op.energy, ()) and fits(oq.total_charge, ()) and fits(op.total_charge, ())):
+        fails.append({"what": "outgoing energy / total_charge do not broadcast to the batch shape", **shapes})
+    if fails:
+        # still name a value: entry [0...] of whatever came out, compared with the particles of the first entry, when it can be indexed
+        return "fail", fails, shapes
+    nonfinite = 0
+    for idx in itertools.product(*[range(d) for d in S]):
+        ope = cheetah.ParticleBeam(op.particles.expand(S + (n, 7))[idx], op.energy.expand(S)[idx],
+                                   particle_charges=op.particle_charges.expand(S + (n,))[idx],
+                                   survival_probabilities=op.survival_probabilities.expand(S + (n,))[idx], dtype=DT)
+        oqe = cheetah.ParameterBeam(oq._mu.expand(S + (7,))[idx], oq._cov.expand(S + (7, 7))[idx], oq.energy.expand(S)[idx], total_charge=oq.total_charge.expand(S)[idx], dtype=DT)
+        nan_p = not bool(torch.isfinite(ope.particles).all())
+        nan_q = not bool(torch.isfinite(oqe._mu).all() and torch.isfinite(oqe._cov).all())
+        if nan_p and nan_q:
+            nonfinite += 1
+            continue
+        diffs = compare_moments(ope, oqe, transverse_only=case["transverse_only"])
+        psd = [] if case["transverse_only"] else sym_psd(oqe)
+        espec = entry_spec(case["spec"], idx[-1] if idx else 0)
+        known, new = classify(espec, diffs, psd)
+        if new:
+            fails.append({"entry": list(idx), "diffs": new[:8], "known": known[:2]})
+        elif known:
+            fails.append({"entry": list(idx), "diffs": [], "known": known[:2]})
+    if nonfinite == max(1, len(list(itertools.product(*[range(d) for d in S])))):
+        return "unspecified", [], shapes
+    return ("fail" if any(f.get("diffs") or f.get("what") for f in fails) else "ok"), fails, shapes
+
+
+def entry_spec(spec, b):
+    """scalar spec of batch entry b of a vectorised (non-segment) element spec; segments are returned unchanged"""
+    if spec["cls"] == "Segment":
+        return spec
+    e = copy.deepcopy(spec)
+    for k, v in spec["kw"].items():
+        if k in realgen.TENSOR_KW and isinstance(v, list):
+            d = {"misalignment": 1, "predefined_transfer_map": 2, "pixel_size": 1}.get(k, 0)
+            t = torch.tensor(v)
+            if t.dim() > d:
+                e["kw"][k] = v[b]
+    return e
+
+
+def shrink_vector(item):
+    """drop segment elements behind the scan, then reduce un-needed vectorisation, while the failure persists"""
+    case = copy.deepcopy(item["case"])
+
+    def fails(c):
+        try:
+            return run_vector_case(c)[0] == "fail"
+        except Exception:
+            return False
+    if case["spec"]["cls"] == "Segment":
+        k = len(case["spec"]["es"]) - 1
+        while k >= 1 and len(case["spec"]["es"]) > 2:
+            t = copy.deepcopy(case)
+            del t["spec"]["es"][k]
+            if fails(t):
+                case = t
+            k -= 1
+    else:
+        for key in list(case.get("vec_keys") or []):
+            v = case["spec"]["kw"].get(key)
+            others = [x for x in case["vec_keys"] if x != key]
+            if isinstance(v, list) and others:
+                t = copy.deepcopy(case)
+                t["spec"]["kw"][key] = v[0]
+                t["vec_keys"] = others
+                if fails(t):
+                    case = t
+    try:
+        st, f, shapes = run_vector_case(case)
+    except Exception:
+        return item
+    return {"kind": "vector", "case": case, "failures": f[:4], "shapes": shapes} if st == "fail" else item
+
+
+def vector_layer(run, n_per_class, n_seg):
+    bad = []
+    todo = [(cls, False) for cls in LINEAR_CLASSES for _ in range(n_per_class)] + [(None, True)] * n_seg
+    for cls, seg in todo:
+        case = gen_vector_case(run.rng, cls, seg)
+        try:
+            st, fails, shapes = run_vector_case(case)
+        except Exception as ex:      # an exception of the implementation is an observation: vectorised tracking must not raise
+            st, fails, shapes = "fail", [{"what": "exception: " + repr(ex)[:300]}], {}
+        if st == "unspecified":
+            run.count("vector_unspecified_nan_both")
+            continue
+        run.add_case(["vector", case], True)
+        run.count("vector_mode_" + case["mode"])
+        run.count("vector_" + ("segment_after_cavity_scan" if seg else case["spec"]["cls"]))
+        for f in fails:
+            for w in f.get("known", []):
+                run.known(w)
+        if st == "fail":
+            bad.append({"kind": "vector", "case": case, "failures": [f for f in fails if f.get("diffs") or f.get("what")][:4], "shapes": shapes})
+    return bad
+
+
 # ---------------------------------------------------------------- cavity: the model of _track_beam vs the code (interval)
 def quad_terms(L, V, phi, f, E, a, b, c):
     """float evaluation of the three second-order terms (used only to scale tolerances)"""
@@ -703,6 +992,9 @@ def main(tier, replay=None):
     t2 = time.time()
     bad_real = real_layer(run, 40 if thorough else 6, 600 if thorough else 60)
     t3 = time.time()
+    bad_vec = vector_layer(run, 25 if thorough else 4, 300 if thorough else 24)
+    run.cov.setdefault("stage_seconds_extra", {})["vector"] = round(time.time() - t3, 1)
+    t3 = time.time()
     goals, meta, cfail, cerrs, cav_py_bad = cavity_goals(run, 150 if thorough else 14)
     t4 = time.time()
     run.cov["stage_seconds"] = {"proof": round(t0 - run.t0, 1), "trees": round(t1 - t0, 1), "qmaps+wmaps": round(t2 - t1, 1),
@@ -710,13 +1002,19 @@ def main(tier, replay=None):
     replay_known(run)
     run.cov["tested_only"] = ["real element classes and segments: moments of tracked particles vs tracked ParameterBeam in float64 (1e-9 of scale); "
                               "the per-class linear maps themselves are the subject of C02/C03",
-                              "symmetry / PSD of the outgoing float covariance (eigvalsh on the normalised matrix)"]
+                              "symmetry / PSD of the outgoing float covariance (eigvalsh on the normalised matrix)",
+                              "vectorised beams / elements / energies (batch on the beam, on the element parameters, on both with shapes (B,)x(B,) and "
+                              "(A,1)x(B,), on the reference energy) through every linear class, and segments behind a Cavity voltage scan (transverse "
+                              "moments): per entry, float64 (1e-9 of scale), shapes of mu / cov / particles / energy included"]
 
     # ---- verdict
     if timpl:
         tree, ps, E, q, obs = tcases[timpl[0]]
         run.violation({"kind": "integer_tree", "tree": tree, "particles": ps, "E": E, "charges": q, "observed": obs,
                        "differs": tree_oracle(obs), "relation": "moments(track(ParticleBeam)) == track(ParameterBeam(moments))"})
+    elif hasattr(run, "vec_q_fail"):
+        run.violation(dict(run.vec_q_fail, relation="per entry of a vectorised CustomTransferMap x vectorised beam: "
+                                                     "moments(track(ParticleBeam))[b] == track(ParameterBeam(moments))[b], exactly"))
     elif qimpl:
         m, ps, E, q, obs = qcases[qimpl[0]]
         run.violation({"kind": "dyadic_map", "map": m, "particles": ps, "E": E, "charges": q, "observed": obs, "differs": q_oracle(obs),
@@ -728,6 +1026,10 @@ def main(tier, replay=None):
                        "relation": "survival-weighted moments(track(ParticleBeam)) == track(ParameterBeam(weighted moments))"})
     elif bad_real:
         run.violation(dict(shrink_real(bad_real[0]), relation="moments(track(ParticleBeam)) == track(ParameterBeam(moments)), energy/charge equal, cov symmetric PSD"))
+    elif bad_vec:
+        run.violation(dict(shrink_vector(bad_vec[0]), n_failing=len(bad_vec),
+                           relation="per entry of the vector dimensions: moments(track(ParticleBeam))[idx] == track(ParameterBeam(moments))[idx]; "
+                                    "mu has shape batch+(7,), cov batch+(7,7); energy and charge per entry"))
     elif cav_py_bad:
         run.violation(dict(cav_py_bad[0], broken="Cavity._track_beam(ParameterBeam): entries outside cov[4:6,4:6] are not tm cov tm^T, cov[5,5] not kept, "
                            "or energies differ"), no_input=False)
@@ -771,6 +1073,14 @@ def do_replay(run, path):
     elif kind == "weighted_dyadic_map":
         obs = observe_w(r["map"], r["particles"], r["survival"], r["E"], r["charges"])
         bad = w_oracle(obs, r["survival"])
+    elif kind == "dyadic_map_vectorised":
+        try:
+            bad = [[b] + q_oracle(o) for b, o in enumerate(observe_q_vec(r["maps"], r["particles"], r["E"], r["charges"])) if q_oracle(o)]
+        except ShapeMismatch as ex:
+            bad = ["shape " + str(ex)]
+    elif kind == "vector":
+        st, fails, shapes = run_vector_case(r["case"])
+        bad = [f for f in fails if f.get("diffs") or f.get("what")] if st == "fail" else []
     elif kind in ("real_element", "real_segment"):
         diffs, psd, _ = run_real_case(r["spec"], r["beam"])
         known, bad = classify(r["spec"], [] if diffs == "unspecified" else diffs, psd)
